@@ -23,7 +23,7 @@ RULE = ("cycles of 1..8 elements (durations 1..50, also 1, 10^6), offsets 0..200
 ASSUME = ["Python/numpy integer arithmetic is exact (model over Z)"]
 ROUTES = ["ctor", "setter", "deepcopy", "pickle", "kw_order"]
 # how the cycle itself comes into being (all before the first query; staleness after a query is C11)
-CYCLE_ROUTES = ["ctor", "ctor", "offset_setter", "elements_setter", "both_setters", "copy", "sibling"]
+CYCLE_ROUTES = ["ctor", "ctor", "offset_setter", "elements_setter", "both_setters", "copy", "sibling", "late_elements"]
 
 
 def gen(rng, n):
@@ -66,6 +66,9 @@ def build(c):
     dt = c.get("dtype")      # durations handed over as numpy integer scalars (e.g. taken from a signal-plan array)
     els = [TrafficLightCycleElement(TrafficLightState[n], d if dt is None else getattr(np, dt)(d)) for n, d in c["els"]]
     cr = c.get("croute", "ctor")
+    if cr == "late_elements":
+        # the phase lengths are filled in after the light was put together, before anybody asked for a state
+        els = [TrafficLightCycleElement(TrafficLightState[n], d + 1 + i) for i, (n, d) in enumerate(c["els"])]
     if cr == "offset_setter":
         cyc = TrafficLightCycle(els)
         cyc.time_offset = c["o"]
@@ -101,7 +104,11 @@ def build(c):
         light = copy.deepcopy(light)
     if r == "pickle":
         light = pickle.loads(pickle.dumps(light))
-    return light.traffic_light_cycle if r in ("deepcopy", "pickle") else cyc, light
+    out_cyc = light.traffic_light_cycle if r in ("deepcopy", "pickle") else cyc
+    if cr == "late_elements":
+        for el, (n, d) in zip(out_cyc.cycle_elements, c["els"]):
+            el.duration = d if dt is None else getattr(np, dt)(d)
+    return out_cyc, light
 
 
 def observe(c):
